@@ -57,7 +57,7 @@ PROPS = {
         "technique": "bounded symbolic execution of reader.Read_str (scanner included) and repl.multiLine on symbolic bracket structures with symbolic string/comment content, every cut, every surplus/wrong closer; SMT (z3) decides assertions",
         "outside": "the Go-constructor brackets, unterminated strings (the statement is about brackets), cuts inside a token, the ^ reader macro, the interactive Execute loop (terminal I/O); structures deeper/wider than the bound",
         "runs": [
-            {"pkg": "./c16", "harness": "Harness_cut", "overlay": {"/repo/repl/zz_verif_export.go": "harness/overlays/repl_export.go"},
+            {"pkg": "./c16", "harness": "Harness_cut", "overlay": {"/repo/repl/zz_verif_export.go": "harness/overlays/repl_export.go.txt"},
              "params": {"quick": {"depth": 2, "width": 1, "strlen": 1}, "thorough": {"depth": 2, "width": 2, "strlen": 2}}, "wall": {"thorough": "40m"}},
         ],
     },
@@ -127,6 +127,22 @@ PROPS = {
         "runs": [
             {"pkg": "./c18", "harness": "Harness_stepper", "setup": "Setup",
              "params": {"quick": {"depth": 1, "width": 1, "cmds": 2, "small": 1, "forms": 1}, "thorough": {"depth": 1, "width": 1, "cmds": 4, "small": 1, "forms": 2}}, "wall": {"thorough": "40m"}},
+        ],
+    },
+    "C08": {
+        "technique": "bounded symbolic execution of EVAL's TCO loop and macroexpand with the real cond/and/or macros: one inductive loop step taken twice with a symbolic 64-bit counter (only n >= 3 assumed); the engine's live SSA activation count is the host stack depth; SMT (z3) decides the counter's path conditions and assertions",
+        "outside": "debugger mode (recursion is deliberate); try bodies (not tail positions); loop shapes with more nested wrappers or longer function cycles than the bound; host frames are counted as SSA activations (inlining aside)",
+        "runs": [
+            {"pkg": "./c08", "harness": "Harness_tail", "setup": "Setup",
+             "params": {"quick": {"wrappers": 2, "cycle": 2}, "thorough": {"wrappers": 3, "cycle": 3}}, "wall": {"thorough": "40m"}},
+        ],
+    },
+    "C19": {
+        "technique": "bounded symbolic execution of READ/EVAL/PRINT, REPL-style form-by-form delivery and the real load-file/eval/read-string/str/slurp chain (file table model) on program texts with symbolic layout (blank space, LF, CRLF, TAB, comments with symbolic content, trailing comment without newline): relational comparison of result, thrown object, effect trace and globals between delivery routes; SMT (z3) decides assertions",
+        "outside": "real file-system I/O, the command-line front end; programs other than the seven form skeletons; symbolic layout only at every stride-th token gap; L-notation is represented by the position-free AST",
+        "runs": [
+            {"pkg": "./c19", "harness": "Harness_routes", "setup": "Setup",
+             "params": {"quick": {"fill": 1, "forms": 1, "stride": 3}, "thorough": {"fill": 1, "forms": 2, "stride": 4}}, "wall": {"quick": "150s", "thorough": "40m"}},
         ],
     },
 }
